@@ -7,7 +7,8 @@ import json, os
 import vlib
 from vlib import log
 
-HOME = dict(c1="S", c2="S", c3="r1", c4="r1", c5="r2", l1="S", l2="r1")
+HOME = dict(c1="S", c2="S", c3="r1", c4="r1", c5="r2", c6="r3", l1="S", l2="r3")
+RHOME = dict(r1="S", r2="S", r3="r1")
 SPECIAL = ["Wedge", "DupBroadcast", "PoolStop", "PoolStopConnected", "BadFrame"]
 
 
@@ -39,7 +40,7 @@ def validate(v, d, scen, traces):
 
 def special(v, d, drv, seed, modes=SPECIAL, reps=1):
     """fixed schedules; each verdict is read off what the real code did"""
-    scen = [dict(sc=i + 1, seed=seed * 1009 + i, steps=[], opt=dict(mode=m, home=HOME)) for i, m in enumerate(modes * reps)]
+    scen = [dict(sc=i + 1, seed=seed * 1009 + i, steps=[], opt=dict(mode=m, home=HOME, rhome=RHOME)) for i, m in enumerate(modes * reps)]
     sf, tf = os.path.join(d, "special.json"), os.path.join(d, "special.ndjson")
     json.dump(scen, open(sf, "w"))
     vlib.run_driver(drv, sf, tf, ["-workers", "4", "-stall", "30"], timeout=300)
@@ -93,7 +94,7 @@ def run(prop, tier, seed):
         b, w = vlib.tlc_generate(d, "FractalGen.tla", "FractalGen.cfg", n, 24, seed + 31 * s2)
         behs += b
     behs = vlib.dedup(behs)
-    scen = [dict(sc=i + 1, seed=seed * 100003 + i, steps=b, opt=dict(home=HOME)) for i, b in enumerate(behs)]
+    scen = [dict(sc=i + 1, seed=seed * 100003 + i, steps=b, opt=dict(home=HOME, rhome=RHOME)) for i, b in enumerate(behs)]
     log("generated %d behaviours" % len(scen))
     sf, tf = os.path.join(d, "scen.json"), os.path.join(d, "trace.ndjson")
     total = 0
